@@ -35,6 +35,8 @@ pub struct Fault {
     pub kind: FaultKind,
     /// how many consecutive calls fail (usize::MAX = persistent)
     pub times: usize,
+    /// a further fault that becomes active once this one is used up (its position is not before this one's)
+    pub then: Option<Box<Fault>>,
 }
 
 #[derive(Clone, Debug, Default)]
@@ -115,11 +117,18 @@ impl PipeState {
     fn fault_at(&mut self, pos: usize) -> Option<FaultKind> {
         let f = self.fault.as_ref()?;
         if pos == f.at && self.fault_left > 0 {
+            let kind = f.kind;
             if self.fault_left != usize::MAX {
                 self.fault_left -= 1;
             }
             self.log.faults_injected += 1;
-            return Some(f.kind);
+            if self.fault_left == 0 {
+                if let Some(n) = self.fault.as_mut().and_then(|f| f.then.take()) {
+                    self.fault_left = n.times;
+                    self.fault = Some(*n);
+                }
+            }
+            return Some(kind);
         }
         None
     }
@@ -326,6 +335,11 @@ pub struct IoCase {
     /// per message: a value that is emplaced first; the message is then replaced by `msgs[i]` *through the send guard*
     /// (`DerefMut`) before it is sent.  What has to arrive is the content at the time of `send()`.
     pub pre: Vec<Option<(Value, u64)>>,
+    /// per message: 1 = before the message, a guard is allocated, initialised with `pre[i]` and dropped without being sent
+    /// (nothing of it may reach the sink); 2 = the message is written as raw bytes (`raw[i]`, a reference image with
+    /// arbitrary padding bytes) through `as_mut_bytes()` + `assume_init()`
+    pub how: Vec<u8>,
+    pub raw: Vec<Vec<u8>>,
     pub max_msg_len: usize,
     pub wchunks: Vec<usize>,
     pub rchunks: Vec<usize>,
@@ -412,7 +426,28 @@ pub fn run_blocking<M: Shape + ?Sized>(c: &IoCase) -> IoTrace {
                         break;
                     }
                 };
-                let res = match c.pre.get(i).and_then(|p| p.as_ref()) {
+                let how = c.how.get(i).copied().unwrap_or(0);
+                let mut guard = guard;
+                if how == 1 {
+                    if let Some((pv, ps)) = c.pre.get(i).and_then(|p| p.as_ref()) {
+                        // an initialised guard that is never sent
+                        drop(M::with_emp(pv, *ps, BGuardK(guard)));
+                        guard = match sender.alloc() {
+                            Ok(g) => g,
+                            Err(e) => {
+                                sends.borrow_mut().push(Err(format!("alloc: {:?}", e.kind())));
+                                break;
+                            }
+                        };
+                    }
+                }
+                let res = match c.pre.get(i).and_then(|p| p.as_ref()).filter(|_| how == 0) {
+                    None if how == 2 => {
+                        let img = &c.raw[i];
+                        guard.as_mut_bytes()[..img.len()].copy_from_slice(img);
+                        // SAFETY: the bytes are a valid encoding of the message (reference image)
+                        unsafe { guard.assume_init() }.send().map_err(|e| format!("io: {:?}", e.kind()))
+                    }
                     None => match M::with_emp(v, *style, BGuardK(guard)) {
                         Err(e) => Err(format!("emplace: {:?}", e)),
                         Ok(g) => g.send().map_err(|e| format!("io: {:?}", e.kind())),
@@ -626,12 +661,19 @@ impl AsyncRead for AsyncRState {
         let pos = s.rpos;
         if let Some(f) = &this.fault {
             if pos == f.at && this.fault_left > 0 {
+                let kind = f.kind;
                 if this.fault_left != usize::MAX {
                     this.fault_left -= 1;
                 }
+                if this.fault_left == 0 {
+                    if let Some(n) = this.fault.as_mut().and_then(|f| f.then.take()) {
+                        this.fault_left = n.times;
+                        this.fault = Some(*n);
+                    }
+                }
                 s.log.faults_injected += 1;
                 s.log.events.push(('r', buf.len(), -1));
-                return Poll::Ready(match f.kind {
+                return Poll::Ready(match kind {
                     FaultKind::Err(e) => Err(e.into()),
                     FaultKind::Zero => Ok(0),
                 });
@@ -709,6 +751,8 @@ pub fn run_async<M: Shape + ?Sized>(c: &IoCase) -> IoTrace {
         let marks2 = done_marks.clone();
         let msgs = c.msgs.clone();
         let pre = c.pre.clone();
+        let hows = c.how.clone();
+        let raws = c.raw.clone();
         let max = c.max_msg_len;
         let snd_cap = c.snd_cap;
         let send_after_error = c.send_after_error;
@@ -730,7 +774,27 @@ pub fn run_async<M: Shape + ?Sized>(c: &IoCase) -> IoTrace {
                         break;
                     }
                 };
-                let res = match pre.get(i).and_then(|p| p.as_ref()) {
+                let how = hows.get(i).copied().unwrap_or(0);
+                let mut guard = guard;
+                if how == 1 {
+                    if let Some((pv, ps)) = pre.get(i).and_then(|p| p.as_ref()) {
+                        drop(M::with_emp(pv, *ps, AGuardK(guard)));
+                        guard = match sender.alloc().await {
+                            Ok(g) => g,
+                            Err(e) => {
+                                sends2.borrow_mut().push(Err(format!("alloc: {:?}", e.kind())));
+                                break;
+                            }
+                        };
+                    }
+                }
+                let res = match pre.get(i).and_then(|p| p.as_ref()).filter(|_| how == 0) {
+                    None if how == 2 => {
+                        let img = &raws[i];
+                        guard.as_mut_bytes()[..img.len()].copy_from_slice(img);
+                        // SAFETY: the bytes are a valid encoding of the message (reference image)
+                        unsafe { guard.assume_init() }.send().await.map_err(|e| format!("io: {:?}", e.kind()))
+                    }
                     None => match M::with_emp(v, *style, AGuardK(guard)) {
                         Err(e) => Err(format!("emplace: {:?}", e)),
                         Ok(g) => g.send().await.map_err(|e| format!("io: {:?}", e.kind())),
